@@ -73,7 +73,10 @@ def make_recipe(rnd, quick=True):
                     entries=head + body, bad=bad())
 
     def lib():
-        return [pick([def_r, def_r, def_r, req_r, lambda: ["use", items()]])() for _ in range(1 + R(4))]
+        forms = [pick([def_r, def_r, def_r, req_r, lambda: ["use", items()]])() for _ in range(1 + R(4))]
+        if R(8) == 0:
+            forms.append(["baduse", R(12)])  # the library's own text uses a reader macro only others have
+        return forms
 
     return dict(libs=[lib() for _ in range(R(3))], streams=[stream() for _ in range(1 + R(4))], sched=[R(4) for _ in range(R(13))])
 
@@ -139,11 +142,19 @@ def concretize(rec):
     ids = _Ids()
     defs = {}  # id -> (kind, home)
     # ---- libraries
-    libs, libtab = [], []
+    libs, libtab, libbroken = [], [], []
+    stream_names = sorted({POOL[p[1]] for r in rec["streams"] for e in r["entries"] for p in (e[1] if e[0] == "do" else [e]) if p[0] == "def"})
     for k, forms in enumerate(rec["libs"]):
         tab, out = {}, []
+        broken = False
         for f in forms:
-            if f[0] == "def":
+            if broken:
+                break
+            if f[0] == "baduse":
+                cands = [x for x in stream_names if x not in tab] or [NEVER]
+                out.append(["use", [1, ["u", cands[f[1] % len(cands)]], 2]])
+                broken = True
+            elif f[0] == "def":
                 kind = f[2] if f[2] in LIB_KINDS else "int"
                 d = ids.new()
                 defs[d] = (kind, "L%d" % k)
@@ -153,6 +164,8 @@ def concretize(rec):
                 if k == 0 or not libtab[f[1] % k]:
                     continue
                 j = f[1] % k
+                if libbroken[j]:
+                    broken = True
                 names = sorted(libtab[j])
                 if f[3]:
                     out.append(["req", j, "*"])
@@ -171,6 +184,7 @@ def concretize(rec):
             tab[POOL[k]] = d
         libs.append(out)
         libtab.append(tab)
+        libbroken.append(broken)
     # ---- stream attributes
     rs = rec["streams"]
     n = len(rs)
@@ -217,6 +231,7 @@ def concretize(rec):
         return out
 
     final_tab = [None] * n
+    died = []
     final_avoid = [None] * n
     out_streams = [None] * n
 
@@ -237,6 +252,9 @@ def concretize(rec):
             j = p[1] % len(libs)
             names = sorted(libtab[j])
             sel = names if p[3] else _subset(names, p[2])
+            if libbroken[j]:
+                died.append(True)  # the require fails when the library is read: nothing is brought in, the stream ends
+                return ["req", j, "*" if p[3] else sel]
             for nme in sel:
                 newtab[nme] = libtab[j][nme]
             if p[3]:
@@ -275,7 +293,7 @@ def concretize(rec):
             for j0 in range(len(libs)):
                 j = (j0 + b["ipos"]) % len(libs)
                 missing = [x for x in sorted(libtab[j]) if x not in tab]
-                if missing and len(libtab[j]) >= 2:
+                if missing and len(libtab[j]) >= 2 and not libbroken[j]:
                     name = missing[b["at"] % len(missing)]
                     sel = [x for x in sorted(libtab[j]) if x != name]
                     pre = [["req", j, sel]]
@@ -341,6 +359,7 @@ def concretize(rec):
                     break
             newtab = {}
             newavoid = set()
+            del died[:]
             if e[0] == "do":
                 parts = [c for c in (conv_part(p, s, tab, newtab, True, avoid, newavoid) for p in e[1]) if c is not None]
                 if not parts:
@@ -351,6 +370,9 @@ def concretize(rec):
                 if ce is None:
                     continue
             entries.append(ce)
+            if died and not dead:
+                dead = True
+                continue
             if not dead:
                 tab.update(newtab)
                 # order inside a (do ...): a definition after the star-require makes the name definite again; a definition
